@@ -28,7 +28,7 @@ RULE = (
 )
 ASSUMPTIONS = ["one history (no nested histories), default ignore patterns, file contents pairwise distinct", "one rename step per file between two generations"]
 BUDGET = {"quick": (200, 4), "thorough": (6000, 16)}
-REQUIRED = ["multi_rename", "cross_dir_move", "unrelated_new", "second_round", "other_format", "-n", "new_directory", "altered_after"]
+REQUIRED = ["multi_rename", "cross_dir_move", "unrelated_new", "second_round", "renamed_back", "other_format", "-n", "new_directory", "altered_after"]
 
 
 @st.composite
@@ -48,6 +48,14 @@ def _scn(draw):
         srcs = draw(st.lists(st.sampled_from(cur), min_size=k, max_size=k, unique=True))
         newdir = draw(st.integers(0, 4)) == 0
         renames = []
+        back = ri > 0 and draw(st.booleans())
+        if back:
+            # rename files of the previous round back to the names they had before
+            for a, b in rounds[-1]["renames"]:
+                if b in cur and a not in cur and draw(st.integers(0, 2)) > 0:
+                    renames.append([b, a])
+                    cur[cur.index(b)] = a
+            srcs = [] if renames else srcs
         for i, src in enumerate(srcs):
             if newdir:
                 d = "nd%d_%d" % (ri, i % 2)
@@ -70,7 +78,7 @@ def _scn(draw):
                 taken.add(p)
                 newfiles.append(p)
                 cur.append(p)
-        rounds.append({"renames": renames, "new": newfiles, "formats": draw(gen.formats(2)), "n": draw(st.integers(0, 3)) == 0, "newdir": newdir})
+        rounds.append({"renames": renames, "new": newfiles, "formats": draw(gen.formats(2)), "n": draw(st.integers(0, 3)) == 0, "newdir": newdir and not back, "back": bool(back and renames)})
     return {"tree": tree, "gens": gens, "rounds": rounds, "alter": draw(st.integers(0, 9))}
 
 
@@ -115,6 +123,7 @@ def run_case(scn, ctx):
                 res = x.create("R", fm)
                 require(res.exc is None and res.exit_code == 0, "setup", res.brief(), res)
         first_formats = set(scn["gens"][0])
+        ever_recorded = {f[2:] for f in w.files}
         for ri, rnd in enumerate(scn["rounds"]):
             if not rnd["renames"]:
                 continue
@@ -153,12 +162,14 @@ def run_case(scn, ctx):
                 feats.add("-n")
             if rnd["newdir"]:
                 feats.add("new_directory")
+            if rnd.get("back"):
+                feats.add("renamed_back")
             # twin world
             _apply_round(tw, rnd)
             if last:
                 r3 = tw.verify("R")
                 old = {s for s, d in rnd["renames"]}
-                new = {d for s, d in rnd["renames"]} | set(rnd["new"])
+                new = ({d for s, d in rnd["renames"]} | set(rnd["new"])) - ever_recorded  # (a name used before is not new)
                 require(r3.exit_code in (10, 21), "nodr-verify", "verify without rename record: %s" % r3.brief(), r3)
                 mb = _missing_block(r3.output)
                 require(mb is not None and old <= mb, "nodr-verify", "verify must list old paths %s as missing, block %s" % (sorted(old), mb), r3)
@@ -171,6 +182,7 @@ def run_case(scn, ctx):
                 require(r3.exit_code == 10 and mb is not None and old <= mb, "nodr-create", "create without -dr: %s, missing block %s, expected old paths %s" % (r3.brief(), mb, sorted(old)), r3)
             else:
                 r3 = tw.create("R", rnd["formats"], flags=["-dr"] + (["-n"] if rnd["n"] else []))
+            ever_recorded |= {f[2:] for f in w.files}
         # alter one renamed file: verify must still fail and name the new path
         renamed = [d for rnd in scn["rounds"] for s, d in rnd["renames"] if "R/" + d in w.files]
         if renamed:
